@@ -410,6 +410,9 @@ def generated_inputs(ctx, snap, own_pre):
     for nm, src in c19.HANDWRITTEN:
         hand.append(('hand:' + nm, src if isinstance(src, bytes) else src.encode(), []))
     out.append(('handwritten-invalid', hand))
+    if thorough:
+        # deeply nested / very long inputs: stack depth is not part of the comparison (see Comparer.compare)
+        out.append(('deep', [('deep:' + nm, src if isinstance(src, bytes) else src.encode(), []) for nm, src in c19.deep_inputs(True)]))
     # mutants: seeds are corpus files, generated programs and slices of the compiler's own preprocessed source
     seeds = []
     tdir = os.path.join(snap, 'test')
